@@ -231,6 +231,9 @@ pub struct SqlPrinter {
     /// select-list expressions repeated
     pub order_style: u8,
     depth: usize,
+    /// print a single base table without an alias and its columns by bare name (only set for
+    /// single-table queries without subqueries: some planner shortcuts recognise only that form)
+    pub bare: bool,
 }
 
 fn binop_sql(op: BinOp) -> &'static str {
@@ -262,7 +265,7 @@ fn agg_sql(f: AggFn, distinct: bool, arg: &str) -> String {
 
 impl SqlPrinter {
     pub fn new() -> SqlPrinter {
-        SqlPrinter { next_alias: 0, order_style: 0, depth: 0 }
+        SqlPrinter { next_alias: 0, order_style: 0, depth: 0, bare: false }
     }
 
     fn alias(&mut self) -> String {
@@ -315,6 +318,7 @@ impl SqlPrinter {
     /// Returns (sql text of the from item, column texts of its row).
     pub fn from_item(&mut self, f: &From, outer: &[Vec<String>]) -> (String, Vec<String>) {
         match f {
+            From::Table(n, w) if self.bare => (format!("tab{}", n), (0..*w).map(|i| format!("c{}", i)).collect()),
             From::Table(n, w) => {
                 let a = self.alias();
                 (format!("tab{} {}", n, a), (0..*w).map(|i| format!("{}.c{}", a, i)).collect())
@@ -442,8 +446,25 @@ impl SqlPrinter {
     }
 }
 
+/// A top-level SELECT over exactly one base table with no subquery anywhere: it may be printed the
+/// plain way (no alias, bare column names).  Which of those queries are is decided by a hash of the
+/// query itself, so that the choice is reproducible.
+pub fn prints_bare(q: &Query) -> bool {
+    match q {
+        Query::Select(s) if s.from.len() == 1 && matches!(s.from[0], From::Table(..)) => {
+            let mut feats = Vec::new();
+            features(q, &mut feats);
+            let simple = !feats.iter().any(|f| f.contains("subquery") || f.contains("exists") || f.contains("in-sub") || f.contains("scalar"));
+            simple && crate::out::fxhash(format!("{:?}", q).as_bytes()) % 2 == 0
+        }
+        _ => false,
+    }
+}
+
 pub fn to_sql(q: &Query) -> String {
-    SqlPrinter::new().query(q, &[], false)
+    let mut p = SqlPrinter::new();
+    p.bare = prints_bare(q);
+    p.query(q, &[], false)
 }
 
 /// The query printed so that it can be a view / CTE body: its select list is aliased c0, c1, ...
@@ -455,6 +476,7 @@ pub fn to_sql_named(q: &Query) -> String {
 pub fn to_sql_styled(q: &Query, order_style: u8) -> String {
     let mut p = SqlPrinter::new();
     p.order_style = order_style;
+    p.bare = prints_bare(q);
     p.query(q, &[], false)
 }
 
@@ -648,7 +670,9 @@ impl<'a> Gen<'a> {
                 9 => {
                     let t = if self.r.chance(3, 4) { Ty::Int } else { Ty::Str };
                     let n = 1 + self.r.below(3);
-                    Expr::InList(Box::new(self.expr(t, scopes, 0)), (0..n).map(|_| self.constant(t)).collect(), self.r.chance(1, 3))
+                    // NULL list elements matter (x NOT IN (.., NULL) is never TRUE): one element in five is NULL
+                    let items = (0..n).map(|_| if self.r.chance(1, 5) { Expr::Const(Val::Null) } else { self.constant(t) }).collect();
+                    Expr::InList(Box::new(self.expr(t, scopes, 0)), items, self.r.chance(2, 5))
                 }
                 10 if self.cfg.subqueries => {
                     let t = if self.r.chance(3, 4) { Ty::Int } else { Ty::Str };
@@ -824,8 +848,9 @@ impl<'a> Gen<'a> {
             // the group row is the only scope HAVING and the projection see
             let sub = self.cfg.subqueries;
             self.cfg.subqueries = false;
-            if self.r.chance(1, 3) {
-                s.having = Some(self.expr(Ty::Bool, &gscopes, 1));
+            if self.r.chance(1, 2) {
+                let d = 1 + self.r.below(2) as usize;
+                s.having = Some(self.expr(Ty::Bool, &gscopes, d));
             }
             let mut proj = Vec::new();
             let mut ptys = Vec::new();
@@ -839,6 +864,13 @@ impl<'a> Gen<'a> {
                 let e = self.expr(Ty::Int, &gscopes, 1);
                 proj.push(e);
                 ptys.push(Ty::Int);
+            }
+            // predicates evaluated in the select list of a grouped query (their NULL / FALSE / TRUE value
+            // is visible there, unlike in HAVING)
+            if self.r.chance(1, 4) {
+                let e = self.expr(Ty::Bool, &gscopes, 1);
+                proj.push(e);
+                ptys.push(Ty::Bool);
             }
             self.cfg.subqueries = sub;
             s.grouping = Some((keys, aggs));
